@@ -59,7 +59,7 @@ FirstMsg(msgs) == LET bad == {i \in DOMAIN msgs : msgs[i] # ""} IN
                   IF bad = {} THEN "" ELSE msgs[CHOOSE i \in bad : \A k \in bad : i <= k]
 
 (* counters of the VXINFO line *)
-Zero == [col_in |-> 0, col_out |-> 0, col_cells_rebuilt |-> 0, cells_q |-> 0, labelings |-> 0, acc |-> 0, rej |-> 0, props_sized |-> 0, splits |-> 0]
+Zero == [col_in |-> 0, col_out |-> 0, col_cells_rebuilt |-> 0, cells_q |-> 0, labelings |-> 0, acc |-> 0, rej |-> 0, props_sized |-> 0, splits |-> 0, protocols |-> 0]
 Nothing == [msg |-> "", drift |-> 0, d |-> Zero]
 AddInfo(a, b) == [k \in DOMAIN a |-> a[k] + (IF k \in DOMAIN b THEN b[k] ELSE 0)]
 
@@ -280,11 +280,52 @@ HexState(ln) ==
              cells_q |-> IF Has(ln, "q") THEN HexCellsQueried(post, ln.q, QC) ELSE 0,
              labelings |-> 0, acc |-> 0, rej |-> 0]]
 
+(* =============================== C05 (specialised circulators) =========== *)
+(* ln.proto: protocol records (harness/queries.cc format: v0, w, rf, eq, bk  *)
+(* for max_laps 1..3) of every circulator declared by the two specialised    *)
+(* kernels, for every live centre.  The protocol oracle is OVMQueries'       *)
+(* ProtoOK; WHAT each circulator enumerates comes from the definitions of    *)
+(* OVMTet / OVMHex: the cell's four / eight vertices, SheetCells,            *)
+(* SheetHalffaces (sets, mode "uset"; the order contracts belong to C15 /    *)
+(* C16).  Centres outside the contract (non-closed / non-conforming cells,   *)
+(* states with a halfface in two cells) are skipped.  An empty set (no sheet *)
+(* neighbour, boundary halfface) must give an immediately invalid circulator. *)
+QP == INSTANCE OVMQueries
+C05TetState(s, P) ==
+  LET QC == TetQC(s)
+      bad == {i \in DOMAIN P.tv : P.tv[i][1] \in QC /\
+                ~QP!EntryOK(TRUE, "uset", P.tv[i][2], SortedSeq(CellVertSet(s, P.tv[i][1])))}
+  IN [msg |-> IF bad = {} THEN "" ELSE "C05:tv_iter",
+      n |-> 3 * Cardinality({i \in DOMAIN P.tv : P.tv[i][1] \in QC})]
+C05HexState(s, P) ==
+  LET QC == HexQC(s)
+      badHV  == {i \in DOMAIN P.hv : P.hv[i][1] \in QC /\
+                   ~QP!EntryOK(TRUE, "uset", P.hv[i][2], SortedSeq(CellVertSet(s, P.hv[i][1])))}
+      badCSC == {i \in DOMAIN P.csc : P.csc[i][1] \in QC /\
+                   ~QP!EntryOK(TRUE, "uset", P.csc[i][3], SortedSeq(SheetCells(s, P.csc[i][1], P.csc[i][2])))}
+      stOK == HexStateOK(s)
+      inHF(hf) == LET cs == CellsOfHF(s, hf) IN
+                  IF cs = {} THEN TRUE                            \* boundary halfface: nothing incident
+                  ELSE /\ Cardinality(cs) = 1 /\ TheElem(cs) \in QC
+                       /\ (SheetCells(s, TheElem(cs), 0) \cup SheetCells(s, TheElem(cs), 2)) \subseteq QC
+      okHF   == {i \in DOMAIN P.hfshf : stOK /\ P.hfshf[i][1] \in LiveHF(s) /\ inHF(P.hfshf[i][1])}
+      badHF  == {i \in okHF : ~QP!EntryOK(TRUE, "uset", P.hfshf[i][2], SortedSeq(SheetHalffaces(s, P.hfshf[i][1])))}
+  IN [msg |-> IF badHV # {} THEN "C05:hv_iter" ELSE IF badCSC # {} THEN "C05:csc_iter"
+              ELSE IF badHF # {} THEN "C05:hfshf_iter" ELSE "",
+      n |-> 3 * (Cardinality({i \in DOMAIN P.hv : P.hv[i][1] \in QC}) + Cardinality({i \in DOMAIN P.csc : P.csc[i][1] \in QC})
+                 + Cardinality(okHF))]
+C05Line(ln) ==
+  LET s == Obs(ln.post)
+      r == IF ~Has(ln, "proto") \/ ~WellFormed(s) THEN [msg |-> "", n |-> 0]
+           ELSE IF ln.mesh = "tet" THEN C05TetState(s, ln.proto) ELSE C05HexState(s, ln.proto)
+  IN [msg |-> r.msg, drift |-> 0, d |-> [Zero EXCEPT !.protocols = r.n]]
+
 (* ----------------------------- one line -------------------------------- *)
 
 LineCheck(i) ==
   LET ln == Tr[i] IN
-  IF ln.e = "call" /\ ln.chk
+  IF Want("C05") /\ ((ln.e = "call" /\ ln.chk) \/ ln.e = "pre") /\ ln.mesh \in {"tet", "hex"} THEN C05Line(ln)
+  ELSE IF ln.e = "call" /\ ln.chk
   THEN (IF ln.mesh = "tet" /\ Want("C03") THEN C03Line(ln, Tr[ln.pl].post, ln.post)
         ELSE IF ln.mesh = "tet" /\ Want("C15") THEN TetLine(ln, Tr[ln.pl].post, ln.post)
         ELSE IF ln.mesh = "hex" /\ Want("C16") THEN HexLine(ln, Tr[ln.pl].post, ln.post)
